@@ -25,5 +25,7 @@ for id in $ids; do
   h=$(python3 -c "import json;print(json.load(open('props/$id.json'))['harness'])")
   (cd harness && go build -tags verif -o "bin/$h" "./cmd/$h") || { echo "setup: harness of $id does not build"; rc=1; }
 done
-echo "setup done rc=$rc"
-exit $rc
+# a part that failed to build here is reported by the check that needs it (as a broken obligation / check error of that property);
+# setup itself never fails because of it, so that the other properties' checks still run
+echo "setup done (problems above: $rc)"
+exit 0
